@@ -30,6 +30,11 @@ from checks import c02_weak, c02_loop
 def gen_cases(ctx, n_grammars, n_inputs):
     rng = ctx.rng
     cases = [(g, G.inputs_for(rng, g, n_inputs)) for g in G.classic_corpus() if g.is_reduced()]
+    for src, ins, _ in G.rare_shape_corpus():
+        g = G.from_text(src)
+        if g.is_reduced() and not g.derives_cycle():
+            ctx.count("family_rare_shapes")
+            cases.append((g, [list(x) for x in ins] + G.inputs_for(rng, g, n_inputs)))
     for src in G.gc_chain_corpus()[:ctx.n(15, 60)] + G.gc_corpus()[:ctx.n(40, 120)]:
         g = G.from_text(src)
         if g.is_reduced() and not g.derives_cycle():
